@@ -1,8 +1,12 @@
 #!/bin/sh
-# usage: try_mutant.sh <patch> <prop> [tier] -- applies a seeded change to /repo, runs the check, reverts
-set -e
-P=$1; ID=$2; TIER=${3:-quick}
-cd /repo && git apply "$P"
-cd /verif && (./check $ID $TIER 2>&1 | cut -c1-220 | tail -4; echo "rc=$?") || true
-cd /repo && git checkout -- . 
-git -C /repo status --short | head -3
+# usage: try_mutant.sh <patch> <prop> [tier]
+# Applies a seeded change to a scratch worktree of /repo's HEAD (never to /repo itself, so checks that
+# run against /repo at the same time are not disturbed), runs the check against it (VERIF_REPO), removes it.
+P=$(readlink -f "$1"); ID=$2; TIER=${3:-quick}
+WT=/tmp/wtm/$$-$ID
+mkdir -p /tmp/wtm
+git -C /repo worktree add --detach "$WT" HEAD >/dev/null 2>&1 || { echo "cannot create worktree"; exit 2; }
+git -C "$WT" apply "$P" || { echo "patch does not apply"; git -C /repo worktree remove --force "$WT"; exit 2; }
+cd /verif && VERIF_REPO="$WT" VERIF_WORK_TAG="m$$" ./check $ID $TIER 2>&1 | cut -c1-220 | grep -v "^KNOWN-FINDING" | tail -3
+git -C /repo worktree remove --force "$WT"; rm -rf /tmp/verif-out-$(basename "$WT")
+git -C /repo worktree prune
